@@ -65,6 +65,7 @@ d0a531d C08 C08.slicekeep
 b6c22a4 C08 C08.coherence
 f53f4fe C17 C17.regrow
 5768bef C03 C03.loopfresh
+51a54bc C08 C08.rowsfollow
 LIST
 git -C /repo worktree remove --force $WT
 rm -rf /tmp/fixcheck-ev
